@@ -5,7 +5,8 @@
     * `Function::{get_outermost_sourceloc, get_innermost_sourceloc, get_inlinee_at_depth}`
                                               (breakpad-symbols/src/sym_file/types.rs:91-147)
     * the tables as built by `SymbolParser::{finish_item, finish}` (parser.rs:660-723): lines with
-      size 0 dropped, `into_rangemap_safe` (Option layer) for the line table, `inlinees.sort()`,
+      size 0 dropped, `into_rangemap_safe` (Option layer) for the line table, INLINE ranges with
+      size 0 dropped (`inlinees.retain(|i| i.size > 0)`, /repo 2be1766), `inlinees.sort()`,
       FUNCs pushed only with a valid `memory_range()`, parser copy of `into_rangemap_safe`,
       `publics.sort()`, the STACK WIN overlap repair
     * `fill_source_line_info`'s module lookup and `inlines.reverse()` (minidump-unwind/src/lib.rs:681-703)
@@ -106,7 +107,7 @@ structure BFunc where
   lines : List Line
   /-- `Function.lines`; value = canonical position in `lines` -/
   ltab : List Entry
-  /-- `Function.inlinees`, sorted -/
+  /-- `Function.inlinees`: the non-empty ranges, sorted -/
   inls : List Inl
   deriving DecidableEq, Repr
 
@@ -114,14 +115,16 @@ structure BFunc where
 def lineInput (ls : List Line) : List (Option Rng × Val) :=
   ls.map fun l => (mkRangeLine l.addr l.size, ls.idxOf l)
 
-/-- `finish_item` for a FUNC (parser.rs:662-680) -/
+/-- `finish_item` for a FUNC (parser.rs:662-684): empty line records and empty inlinee ranges are
+    dropped before the tables are built -/
 def finishItem (f : Func) : Outcome BFunc :=
   let ls := f.lines.filter fun l => l.size > 0
   match safe (lineInput ls) with
   | .panic s => .panic s
   | .ok t =>
     .ok { addr := f.addr, size := f.size, psize := f.psize, name := f.name,
-          lines := ls, ltab := t, inls := f.inls.mergeSort inlLe }
+          lines := ls, ltab := t,
+          inls := (f.inls.filter fun x => x.size > 0).mergeSort inlLe }
 
 def finishAll : List Func → Outcome (List BFunc)
   | [] => .ok []
